@@ -177,7 +177,7 @@ def point(rnd, a5, kind, r=None):
     return POINT_GENS[kind](rnd), r
 
 
-# ----------------------------------------------------------------------------- cells, through the public API only
+# ----------------------------------------------------------------------------- cells: through the public API (alias_cell also uses the documented id layout)
 def digits_pattern(rnd, n, kind=None):
     """n quaternary digits (most significant first)"""
     kind = kind or rnd.choice(('zero', 'three', '0333', '1000', '1222', 'alt12', 'alt30', 'single', 'random', 'random',
